@@ -817,7 +817,7 @@ func judgeFailure(w *World, cfg *WConfig, netc *WNet, nExplicit int, res *KResul
 		case errors.As(err, &vn):
 			// a long-header packet whose version field was corrupted to zero on the way IS a Version Negotiation packet for
 			// the receiver (they are not authenticated): then the error is the network's
-			if wVersionFieldCorrupted(w, side) {
+			if wVersionFieldCorrupted(w, side, 0) {
 				res.Probe("version-field-corrupted-into-a-version-negotiation-packet")
 				continue
 			}
@@ -869,12 +869,18 @@ func wEffectiveIdle(w *World, cfg *WConfig) time.Duration {
 	return time.Duration(min(client, nzIdle(cfg.IdleMS[1]))) * time.Millisecond
 }
 
-// wVersionFieldCorrupted: was a datagram delivered to `side` in which a corruption fault hit the version field (bytes 1-4) of a
-// long-header packet?
-func wVersionFieldCorrupted(w *World, side int) bool {
+// wVersionFieldCorrupted: was a datagram delivered to `side` (no later than `by` ns, 0 = any time) in which a corruption fault
+// hit the version field (bytes 1-4) of a long-header packet, or which carried a Version Negotiation packet that was damaged on
+// the way (its version list is not authenticated: a flipped byte removes the client's own version from it)?
+func wVersionFieldCorrupted(w *World, side int, by int64) bool {
 	for _, rec := range w.Log[1-side] {
-		if !rec.Damaged || len(rec.Delivered) == 0 {
+		if !rec.Damaged || len(rec.Delivered) == 0 || (by > 0 && rec.Delivered[0] > by) {
 			continue
+		}
+		for _, p := range rec.Pkts {
+			if p.Type == TapVN {
+				return true
+			}
 		}
 		for _, f := range rec.Faults {
 			if f.Kind != "corrupt" {
